@@ -286,12 +286,12 @@ fn check(ctx: &Ctx, c: &Case) -> PResult {
         let shift = f_stream(c.seed ^ 0x1a7e, 1)[0];
         for (pb, ver) in subjects {
             let rp = RefProof::parse(pb).map_err(|e| Fail::new("refver-parse", e))?;
-            for early in 0u8..2 {
+            for early in 0u8..4 {
                 for sft in [F::one(), shift] {
                     if let Some(forged) = refver::late_bound_opening_pair(&s.rv, &rp, &s.pi, refver::version_of(ver), early, &s.x_g, &sft) {
                         compare(
                             ctx,
-                            if early == 0 { "opening pair shifted with u drawn before both commitments" } else { "opening pair shifted with u drawn after W_z only" },
+                            match early { 0 => "opening pair shifted with u drawn before both commitments", 1 => "opening pair shifted with u drawn after W_z only", 2 => "opening pair shifted with u drawn after W_z absorbed twice", _ => "opening pair shifted with u drawn after W_z under the second label" },
                             &s.verifier, &s.rv, &forged.to_bytes(), &s.pi, ver, Some(false),
                         )?;
                     }
